@@ -73,6 +73,11 @@ def menu(ctx: Ctx, rng: random.Random) -> list[dict]:
         {"op": "iban.from_bban", "cc": cps("BA"), "bban": cps(zeros), "ai": False, "vb": False},
         {"op": "iban.new", "t": cps("AT" + gen.check_digits("AT", zeros) + zeros), "vb": False},
         {"op": "iban.new", "t": cps("BA" + gen.check_digits("BA", zeros) + zeros), "vb": False},
+        # one BBAN text under two countries whose fields lie elsewhere (a memo keyed by the value alone)
+        {"op": "iban.parts", "t": cps("AT" + gen.check_digits("AT", "1234567890123456") + "1234567890123456"), "ai": False},
+        {"op": "iban.parts", "t": cps("BA" + gen.check_digits("BA", "1234567890123456") + "1234567890123456"), "ai": False},
+        {"op": "iban.parts", "t": cps("DE" + gen.check_digits("DE", "370400440532013000") + "370400440532013000"), "ai": False},
+        {"op": "iban.parts", "t": cps("CR" + gen.check_digits("CR", "370400440532013000") + "370400440532013000"), "ai": False},
         {"op": "iban.new", "t": cps("NO7586011117948"), "vb": False},
         {"op": "bic.new", "t": cps("1234DEWWXXX"), "strict": False},
         {"op": "bic.validate", "t": cps("1234DEWWXXX"), "strict": True},
